@@ -905,16 +905,29 @@ func C06(c *core.Ctx, replay string) {
 	nLarge := 0
 	if replay == "" {
 		base := len(jobs)
-		for rep := 0; nLarge < c.Pick(60, 240) && rep < 200; rep++ {
+		perMode := map[string]int{}
+		for rep := 0; rep < 400; rep++ {
 			for i := 0; i < perRound; i++ {
 				v := jobs[i].vec
 				if v.D != 0 || v.Req.Empty || v.Req.Target != "new" || len(v.Allowed) != 1 {
 					continue
 				}
+				// the chunk decoders get most of the traffic
+				quota := c.Pick(8, 24)
+				if c06IsStream(v.Req.Mode) {
+					quota = c.Pick(40, 120)
+				}
+				if perMode[v.Req.Mode] >= quota {
+					continue
+				}
+				perMode[v.Req.Mode]++
 				jobs = append(jobs, job{cs: c06BindLarge(v, base+nLarge, c.Seed), vec: v})
 				nLarge++
 			}
 		}
+		// uploads of one mode run side by side
+		lg := jobs[base:]
+		sort.SliceStable(lg, func(i, j int) bool { return lg[i].cs.Req.Mode < lg[j].cs.Req.Mode })
 		c.Extra["large_concurrent_valid_uploads"] = nLarge
 	}
 	results := make([]c06Result, len(jobs))
@@ -1194,9 +1207,12 @@ func c06BindLarge(v c06Vec, idx int, seed int64) c06Case {
 	cs := c06Case{Req: v.Req, Class: v.Class, Allowed: v.Allowed, ID: fmt.Sprintf("c06L-%d-%d", seed, idx), OldLen: -1}
 	cs.PLen = 1<<20 + rng.Intn(1<<20)
 	if c06IsStream(v.Req.Mode) {
+		cs.PLen = 3<<20 + rng.Intn(2<<20)
 		rest := cs.PLen
+		// a fixed chunk size per upload, as the SDKs send
+		size := []int{256 << 10, 1 << 20}[rng.Intn(2)]
 		for rest > 0 {
-			n := 128<<10 + rng.Intn(896<<10)
+			n := size
 			if n > rest || rest-n < 2 {
 				n = rest
 			}
